@@ -13,7 +13,6 @@ global size_of usize == 8;
 
 //@import units/inc/matrix_core.inc.rs
 //@import units/inc/edge_list_core.inc.rs
-//@import units/inc/list_core.inc.rs
 
 //@include units/inc/conversions.inc.rs
 } // verus!
